@@ -282,8 +282,30 @@ def _views(P, R):
             handed = [(conds, ret) for conds, ret in rows if ret is not None and strip(ret)[0] == "agg" and strip(ret)[1].endswith("Option::Some")]
             if handed and not capped and all(any(isinstance(o, bool) and A.norm_bool(c, o)[0].endswith("metadata.retracted") and A.norm_bool(c, o)[1] is False for c, o in conds) for conds, ret in handed):
                 ok = True
+        if not ok:
+            # loop form: the result vector is filled by pushes, each of them under `!fact.metadata.retracted` for the fact pushed
+            pushes = [c for c in fn.calls() if c.name.endswith("Vec::push") and c.bb in fn.normal_blocks()]
+
+            def _guarded(c):
+                val = fn.sym_operand(c.args[1])
+                vals = [fmt_sym(x, maxdepth=40) for x in walk(val)]
+                for g in A.guards_of(fn, c.bb):
+                    if not isinstance(g["polarity"], bool):
+                        continue
+                    atom, v = A.norm_bool(g["cond"], g["polarity"], maxdepth=40)
+                    if atom.endswith(".metadata.retracted") and atom[:-len(".metadata.retracted")] in vals:
+                        return True if v is False else "inverted"    # the fact tested is the fact pushed (or the one whose handle is pushed)
+                return False
+            if pushes and all(_guarded(c) is True for c in pushes):
+                ok = True
+            elif any(_guarded(c) == "inverted" for c in pushes):
+                R.violate("c", "view-inverted:%s" % fn.short_name, "WorkingMemory::%s hands out a fact exactly when its metadata.retracted flag is set" % fn.short_name, fn)
+                continue
+        tests_flag = any(x[0] == "field" and x[2] == "retracted" for g in bodies for b in g.normal_blocks() for st in g.stmts(b) if st[2] == "=" for x in walk(g.sym_rvalue(st[4])))
         if ok:
             R.hold("c", "view %s filters on !metadata.retracted" % fn.short_name, fn=fn)
+        elif tests_flag:
+            R.undecide("c", "view:%s" % fn.short_name, "WorkingMemory::%s reads metadata.retracted, but not in a filter closure, a guard on the returned Some, or a guard on every push" % fn.short_name, fn)
         else:
             R.violate("c", "view-unfiltered:%s" % fn.short_name, "WorkingMemory::%s returns facts/handles from `facts` without filtering retracted ones: a retracted fact stays visible in this view" % fn.short_name, fn)
     R.count("view_methods", n)
